@@ -248,10 +248,74 @@ class Poly:
             v = c
             for a, e in m:
                 if a not in values:
+                    if a in _ATOMS:
+                        v *= _eval_atom(a, values) ** e
+                        continue
                     raise Undecided(f"no representative for atom {a}")
                 v *= Fraction(values[a]) ** e
             tot += v
         return tot
+
+
+def _eval_atom(a, values):
+    """Numeric value of a structured atom f<args> at the representatives (floating point, for comparisons only)."""
+    import math
+    f, args = _ATOMS[a]
+    xs = []
+    for x in args:
+        if not isinstance(x, Poly):
+            raise Undecided(f"no numeric value for {a}")
+        xs.append(float(x.evalf(values)))
+    try:
+        if f == "sqrt":
+            r = math.sqrt(xs[0])
+        elif f == "exp":
+            r = math.exp(xs[0])
+        elif f == "log":
+            r = math.log(xs[0])
+        elif f == "pow":
+            r = math.pow(xs[0], xs[1])
+        elif f == "abs":
+            r = abs(xs[0])
+        elif f == "inv":
+            r = 1.0 / xs[0]
+        else:
+            raise Undecided(f"no numeric model for {f}")
+    except (ValueError, OverflowError, ZeroDivisionError):
+        raise Undecided(f"{a} is undefined at the representative point")
+    return Fraction(r)
+
+
+def plain_atoms(p, acc=None):
+    """Plain (unstructured) atom names occurring in a Poly, recursively through structured atoms."""
+    acc = set() if acc is None else acc
+    for m in p.t:
+        for a, _ in m:
+            if a in _ATOMS:
+                for x in _ATOMS[a][1]:
+                    if isinstance(x, Poly):
+                        plain_atoms(x, acc)
+            else:
+                acc.add(a)
+    return acc
+
+
+def same_value(a, b):
+    """True / False / None(undecided): symbolic identity, else agreement at three positive rational points
+    (identity testing; only for expressions whose structured atoms have a numeric model)."""
+    a, b = to_poly(a), to_poly(b)
+    if a == b:
+        return True
+    names = sorted(plain_atoms(a) | plain_atoms(b))
+    try:
+        for seed in (3, 7, 11):
+            pt = {n: Fraction(2 + ((i * 37 + seed * 13) % 23), 1 + ((i * 11 + seed) % 7)) for i, n in enumerate(names)}
+            va, vb = float(a.evalf(pt)), float(b.evalf(pt))
+            if abs(va - vb) > 1e-9 * max(1.0, abs(va), abs(vb)):
+                return False
+        return True
+    except Undecided:
+        return None
 
 
 def to_poly(x):
@@ -369,12 +433,21 @@ SHAPE = Shape()
 class Obj:
     """An opaque object (model, config ...): attributes and items are again opaque; as a scalar it is an atom."""
 
-    def __init__(self, name, attrs=None):
+    def __init__(self, name, attrs=None, closed=False):
         self.name = name
         self.attrs = attrs or {}
+        self.closed = closed  # closed: reading an attribute that is not listed raises AttributeError
 
     def __repr__(self):
         return f"<obj {self.name}>"
+
+
+class _PyRaise(Exception):
+    """A python exception raised inside the interpreted fragment (only what try/except in the fragment can see)."""
+
+    def __init__(self, exc):
+        super().__init__(exc)
+        self.exc = exc
 
 
 class Module:
@@ -451,6 +524,8 @@ class Interp:
             self.exec_block(body)
         except _Return as r:
             return r.v
+        except _PyRaise as pr:
+            raise Undecided(f"the fragment raises {pr.exc} on the analysed configuration")
         return None
 
     def call_function(self, fnode, args, kwargs=None, bind_self=False):
@@ -513,6 +588,20 @@ class Interp:
                     continue
                 except _Break:
                     break
+        elif isinstance(st, ast.Delete):
+            for t in st.targets:
+                if isinstance(t, ast.Subscript):
+                    base = self.eval(t.value)
+                    if isinstance(base, list):
+                        del base[int(to_poly(self.eval(t.slice)).const_value())]
+                    elif isinstance(base, dict):
+                        del base[self.eval(t.slice)]
+                    else:
+                        raise Undecided("del on a non-container")
+                elif isinstance(t, ast.Name):
+                    self.env.pop(t.id, None)
+                else:
+                    raise Undecided("del target")
         elif isinstance(st, ast.Continue):
             raise _Continue()
         elif isinstance(st, ast.Break):
@@ -526,9 +615,23 @@ class Interp:
                 except Undecided:
                     pass
         elif isinstance(st, ast.Try):
-            # the normal (non-raising) path: body, else, finally
-            self.exec_block(st.body)
-            self.exec_block(st.orelse)
+            # the normal (non-raising) path: body, else, finally; exceptions modelled by the interpreter itself
+            # (AttributeError on a closed object) are dispatched to the matching handler
+            try:
+                self.exec_block(st.body)
+            except _PyRaise as pr:
+                for h in st.handlers:
+                    names = [] if h.type is None else [A.call_attr(ast.Call(func=t, args=[], keywords=[])) for t in (h.type.elts if isinstance(h.type, ast.Tuple) else [h.type])]
+                    if h.type is None or pr.exc in names or "Exception" in names or "BaseException" in names:
+                        if h.name:
+                            self.env[h.name] = Obj(pr.exc)
+                        self.exec_block(h.body)
+                        break
+                else:
+                    self.exec_block(st.finalbody)
+                    raise
+            else:
+                self.exec_block(st.orelse)
             self.exec_block(st.finalbody)
         elif isinstance(st, ast.With):
             for it in st.items:
@@ -556,8 +659,7 @@ class Interp:
         elif isinstance(t, ast.Subscript):
             base = self.eval(t.value)
             if isinstance(base, list):
-                i = int(to_poly(self.eval(t.slice)).const_value())
-                base[i] = v
+                _nd_set(base, self._index_tuple(t.slice), v)
             elif isinstance(base, dict):
                 base[self.eval(t.slice)] = v
             else:
@@ -566,6 +668,24 @@ class Interp:
             self.attr_sets.append((A.dotted(t), v))  # e.g. pars.requires_grad = True: recorded, no effect on the value
         else:
             raise Undecided(f"assignment target {A.short(t, 40)}")
+
+    def _index_tuple(self, sl):
+        """Evaluate a subscript expression to a tuple of python ints / slices / bool lists."""
+        parts = sl.elts if isinstance(sl, ast.Tuple) else [sl]
+        out = []
+        for p in parts:
+            if isinstance(p, ast.Slice):
+                f_ = lambda n: None if n is None else int(to_poly(self.eval(n)).const_value())
+                out.append(slice(f_(p.lower), f_(p.upper), f_(p.step)))
+            else:
+                v = self.eval(p)
+                if isinstance(v, list) and all(isinstance(b, bool) for b in v):
+                    out.append(list(v))
+                elif isinstance(v, bool):
+                    raise Undecided("boolean scalar index")
+                else:
+                    out.append(int(to_poly(v).const_value()))
+        return tuple(out)
 
     def _mangle(self, attr):
         return A.mangle(self.cls_name, attr) if self.cls_name else attr
@@ -664,9 +784,15 @@ class Interp:
                 if isinstance(basev, Obj):
                     if e.attr in basev.attrs:
                         return basev.attrs[e.attr]
+                    if basev.closed:
+                        raise _PyRaise("AttributeError")
                     return Obj(f"{basev.name}.{e.attr}")
+                if isinstance(basev, Poly) and e.attr in ("dtype", "device"):
+                    return Obj(e.attr)
             if e.attr == "shape":
                 return SHAPE
+            if e.attr == "inf" and A.dotted(e) in ("np.inf", "math.inf", "numpy.inf", "jnp.inf", "torch.inf"):
+                return Poly.atom("INF")
             if e.attr == "pi" and A.dotted(e) in ("np.pi", "math.pi", "numpy.pi", "jnp.pi"):
                 return Poly.atom("PI")
             if e.attr == "T":
@@ -713,6 +839,9 @@ class Interp:
                     if not isinstance(right, (list, tuple)):
                         raise Undecided("membership")
                     ok = (left in right) == isinstance(op, ast.In)
+                elif self.externals.get("__elementwise__") and (isinstance(left, list) or isinstance(right, list)) and len(e.ops) == 1:
+                    from .listnp import elementwise_compare
+                    return elementwise_compare(lambda x, y, op=op: (x == y) == isinstance(op, ast.Eq) if (isinstance(x, bool) and isinstance(y, bool) and isinstance(op, (ast.Eq, ast.NotEq))) else self.compare(op, x, y), left, right)
                 else:
                     ok = self.compare(op, left, right)
                 if not ok:
@@ -743,6 +872,8 @@ class Interp:
                 if isinstance(idx, ast.Tuple) and len(idx.elts) >= 3 and isinstance(idx.elts[2], ast.Constant):
                     return base.slot(idx.elts[2].value)
                 raise Undecided("histogram set indexing")
+            if isinstance(base, list) and isinstance(e.slice, ast.Tuple):
+                return _nd_get(base, self._index_tuple(e.slice))
             if isinstance(e.slice, ast.Slice) or (isinstance(e.slice, ast.Tuple) and any(isinstance(x, ast.Slice) for x in e.slice.elts)):
                 if isinstance(base, Poly):
                     return base
@@ -757,6 +888,8 @@ class Interp:
             if isinstance(base, Poly):
                 return base  # element of an element-wise tensor
             idx = self.eval(e.slice)
+            if isinstance(base, list) and isinstance(idx, list) and idx and all(isinstance(b, bool) for b in idx):
+                return [x for x, b in zip(base, idx) if b]
             if isinstance(base, (list, tuple)):
                 i = int(to_poly(idx).const_value())
                 return base[i]
@@ -1074,6 +1207,14 @@ class Interp:
                         out.append(x)
                 return out
             raise Undecided("filter over a non-list")
+        if name == "id" and isinstance(f, ast.Name) and len(args) == 1:
+            return Poly.const(id(ev(args[0])))
+        if name in ("any", "all") and isinstance(f, ast.Name) and args:
+            seq = ev(args[0])
+            if isinstance(seq, (list, tuple)):
+                vals = [self.truth(x) for x in seq]
+                return any(vals) if name == "any" else all(vals)
+            raise Undecided(f"{name} of a non-list")
         if name == "reversed" and isinstance(f, ast.Name) and args:
             seq = ev(args[0])
             if isinstance(seq, (list, tuple)):
@@ -1090,6 +1231,48 @@ class Interp:
         if name == "set" and isinstance(f, ast.Name):
             return set(ev(args[0])) if args else set()
         raise Undecided(f"call {A.short(e.func, 40)}")
+
+
+def _nd_get(base, idx):
+    """numpy-style indexing of a nested python list with a tuple of ints / full slices / bool masks."""
+    if not idx:
+        return base
+    i, rest = idx[0], idx[1:]
+    if isinstance(i, slice):
+        if i == slice(None, None, None):
+            return [_nd_get(x, rest) for x in base]
+        return [_nd_get(x, rest) for x in base[i]]
+    if isinstance(i, list) and i and all(isinstance(b, bool) for b in i):
+        return [_nd_get(x, rest) for x, b in zip(base, i) if b]
+    return _nd_get(base[i], rest)
+
+
+def _nd_set(base, idx, value):
+    i, rest = idx[0], idx[1:]
+    if rest:
+        if isinstance(i, slice):
+            for x in base[i]:
+                _nd_set(x, rest, value)
+        else:
+            _nd_set(base[i], rest, value)
+        return
+    if isinstance(i, slice):
+        lo, hi, st = i.indices(len(base))
+        pos = list(range(lo, hi, st))
+        vals = value if isinstance(value, (list, tuple)) else [value] * len(pos)
+        if len(vals) != len(pos):
+            raise Undecided("slice assignment of a different length")
+        for p_, v_ in zip(pos, vals):
+            base[p_] = v_
+    elif isinstance(i, list) and all(isinstance(b, bool) for b in i):
+        pos = [k for k, b in enumerate(i) if b]
+        vals = value if isinstance(value, (list, tuple)) else [value] * len(pos)
+        if len(vals) != len(pos):
+            raise Undecided("boolean-mask assignment of a different length")
+        for p_, v_ in zip(pos, vals):
+            base[p_] = v_
+    else:
+        base[i] = value
 
 
 def _deepcopy_value(v):
